@@ -133,9 +133,9 @@ def check(env, rep, tier):
                     if slot_state(s) != {0}:
                         e["ok"] = False
                     if s.ghost.get(("inj", "unrecorded")):
-                        # the previous write's outcome has not been recorded or examined yet
+                        # the previous write failed on this path and that has not been recorded yet
                         e["after_unrecorded"] = True
-                    s.ghost[("inj", "unrecorded")] = True
+                    # (the sink model below marks the failing outcome of this write as not yet recorded)
                 elif call.path.endswith("core::ops::try_trait::Try>::branch"):
                     s.ghost.pop(("inj", "unrecorded"), None)
                 else:
@@ -149,9 +149,28 @@ def check(env, rep, tier):
                                    "%s hands the sink to %s (not a core::fmt::Write method)" % (call.site["fn"], call.path), call.site)
             I.call_hooks.append(call_hook)
 
+            # a sink write either succeeds or fails: two outcomes, the failing one pending until it is stored in the slot
+            # (examining the result and carrying on after Ok is as good as storing it: nothing is pending on that path)
+            def m_sink_write(I_, s_, call):
+                from summaries import mk_ok, mk_err
+                if not (call.args and derives_from_sink(s_, call.args[0])):
+                    return None
+                dt = call.dest_ty
+                if not (dt and dt[0] == "adt" and dt[1] == "core::result::Result"):
+                    return None
+                s_err = s_.copy()
+                if I_.recording:        # (hooks that clear the mark run on recording passes only)
+                    s_err.ghost[("inj", "unrecorded")] = True
+                et = dt[2][1] if len(dt[2]) > 1 else None
+                return [(s_, mk_ok(UNIT, dt)), (s_err, mk_err(I_.mat(s_err, et, "fmt-error"), dt))]
+            for nm_ in ("write_str", "write_char", "write_fmt"):
+                I.extra_models["core::fmt::Write::" + nm_] = m_sink_write
+
             def store_hook(I_, ctx, s, place, v, site):
                 if place == slot:
-                    s.ghost.pop(("inj", "unrecorded"), None)
+                    # the pending failure is recorded when an error goes into the slot (a store of None records nothing)
+                    if not (isinstance(v, EnumV) and list(v.variants) == [0]):
+                        s.ghost.pop(("inj", "unrecorded"), None)
                     key = (site["id"], site["bb"], site.get("si"))
                     e = store_sites.setdefault(key, {"site": site, "ok": True})
                     if slot_state(s) != {0}:
@@ -160,6 +179,11 @@ def check(env, rep, tier):
             fin = []
             I.return_hooks[body["id"]] = lambda I_, ctx, outs: fin.extend((s_.copy(), rv_) for s_, rv_ in outs if ctx.depth == 0)
             I, res = run(prog, body, args=args, st=st, I=I, gargs=gargs)
+            lost = sum(1 for s_, rv_ in fin if s_.ghost.get(("inj", "unrecorded")))
+            rep.ob("C18.1", "%s|failure-recorded" % body["path"], lost == 0,
+                   "%s can return on %d path(s) on which a sink write failed and the failure was never put into the error slot "
+                   "(finish() then reports success for a truncated document)" % (body["path"], lost),
+                   {"file": body["span"]["f"], "line": body["span"]["l"], "fn": body["path"]})
             # ---- C18.3 finish
             if body["name"] == "finish":
                 ok = bool(fin)
